@@ -940,8 +940,26 @@ fn alternates(s: &str) -> Vec<&'static str> {
 }
 
 /// The property's near-collision edits for one string.
-fn near_collisions(s: &str) -> Vec<String> {
+pub fn near_collisions(s: &str) -> Vec<String> {
     let mut v = vec![];
+    // spellings a path normaliser would not tell apart
+    v.push(format!("{s}/"));
+    v.push(format!("./{s}"));
+    v.push(format!("{s}/."));
+    if s.contains('/') {
+        v.push(s.replacen('/', "//", 1));
+        v.push(s.replacen('/', "/./", 1));
+    }
+    if s.len() > 1 && s.ends_with('/') {
+        v.push(s[..s.len() - 1].to_string());
+    }
+    // letter case
+    if s.to_uppercase() != s {
+        v.push(s.to_uppercase());
+    }
+    if s.to_lowercase() != s {
+        v.push(s.to_lowercase());
+    }
     if s.contains('\n') {
         v.push(s.replacen('\n', "\\n", 1));
     }
